@@ -3,7 +3,7 @@
 // histories, against the Lean model and the property's spec oracle.
 //
 //	reset <apex hex> <acme hex>
-//	validate <id>:<tok hex> <raw hex> <norm hex|!> <powOk>:<kind> <cname hex|!>:<kind> <target hex> <getFail><putFail> => <res> <asked hex|-> <kvReads> <bound id:tokhex|->
+//	validate <id>:<tok hex> <raw hex> <norm hex|!> <powOk>:<kind> <cname hex|!>:<kind> <target hex> <getFail><putFail> => <res> <asked hex|-> <kvReads> <bound id:tokhex|-> <owners of the DNS name: sorted id:tokhex,…|->
 //	instr    <id>:<tok hex> <raw hex> <norm hex|!> <powOk>:<kind> <target hex> <getFail> => <res> <name hex|-> <content hex|->
 //	release  <id>:<tok hex> <host hex> => <res> <bound|->
 package main
@@ -13,6 +13,7 @@ import (
 	"crypto/ed25519"
 	"crypto/x509"
 	"errors"
+	"sort"
 	"strconv"
 	"strings"
 	"sync"
@@ -115,14 +116,8 @@ func (m *memKV) Renew(ctx context.Context, lease []byte, ttl time.Duration, prev
 }
 func (m *memKV) Release(ctx context.Context, lease []byte, token uint64) error { return nil }
 
-// binding currently stored for a hostname key, canonical "<id>:<tokhex>" or "-"
-func (m *memKV) boundOf(host string) string {
-	m.mu.Lock()
-	v := m.kv[tun.CustomHostnameKey(host)]
-	m.mu.Unlock()
-	if len(v) == 0 {
-		return "-"
-	}
+// owner recorded in a stored binding, canonical "<id>:<tokhex>"
+func ownerOf(v []byte) string {
 	b := &protocol.CustomHostname{}
 	if err := b.UnmarshalVT(v); err != nil {
 		return "undecodable"
@@ -131,6 +126,52 @@ func (m *memKV) boundOf(host string) string {
 		return "inconsistent"
 	}
 	return strconv.FormatUint(b.GetClientIdentity().GetId(), 10) + ":" + hlib.Hex(b.GetClientToken().GetToken())
+}
+
+// binding currently stored for a hostname key, canonical "<id>:<tokhex>" or "-"
+func (m *memKV) boundOf(host string) string {
+	m.mu.Lock()
+	v := m.kv[tun.CustomHostnameKey(host)]
+	m.mu.Unlock()
+	if len(v) == 0 {
+		return "-"
+	}
+	return ownerOf(v)
+}
+
+// ASCII case folding: the identity of a hostname as a DNS name (RFC 4343); same function as `fold` in Model.lean
+func asciiLower(s string) string {
+	b := []byte(s)
+	for i, c := range b {
+		if 'A' <= c && c <= 'Z' {
+			b[i] = c + 32
+		}
+	}
+	return string(b)
+}
+
+// every client some spelling of the DNS name `host` is bound to (scan of all custom-hostname keys),
+// sorted and joined by ","; "-" when there is none
+func (m *memKV) ownersOfName(host string) string {
+	prefix := tun.CustomHostnameKey("")
+	want := asciiLower(host)
+	set := map[string]bool{}
+	m.mu.Lock()
+	for k, v := range m.kv {
+		if len(v) > 0 && strings.HasPrefix(k, prefix) && asciiLower(k[len(prefix):]) == want {
+			set[ownerOf(v)] = true
+		}
+	}
+	m.mu.Unlock()
+	if len(set) == 0 {
+		return "-"
+	}
+	var l []string
+	for o := range set {
+		l = append(l, o)
+	}
+	sort.Strings(l)
+	return strings.Join(l, ",")
 }
 
 type resolver struct {
@@ -320,6 +361,44 @@ var hostPool = []string{
 	"acme.example.com", "foo.acme.example.com", "a.acme.example.com.evil.org", "sub.example.com",
 	"*.customer.org", "10.0.0.1", "", "a..customer.org", "-bad-.customer.org", "under_score.customer.org", "emoji😀.customer.org",
 	"app.customer.org.", ".app.customer.org", "app.customer.org:443", "tenant.customer.co.uk",
+	// other spellings of names under the zones (DNS names are case-insensitive)
+	"x.HELLO.com", "app.team.Hello.Com", "HELLO.COM", "x.y.ACME.example.com", "Foo.Acme.Example.Com", "ACME.EXAMPLE.COM",
+	"WWW.shop.example.net", "www.Shop.Example.NET", "Tenant.customer.co.uk",
+}
+
+// another spelling of the same DNS name: ASCII letters change case, nothing else
+func respell(raw string, rng *hlib.Rng) string {
+	b := []byte(raw)
+	up := func(i int) {
+		if 'a' <= b[i] && b[i] <= 'z' {
+			b[i] -= 32
+		}
+	}
+	firstDot, lastDot := strings.IndexByte(raw, '.'), strings.LastIndexByte(raw, '.')
+	switch rng.Intn(5) {
+	case 0: // Title-case first label
+		for i := range b {
+			if b[i] != ' ' {
+				up(i)
+				break
+			}
+		}
+	case 1: // everything
+		for i := range b {
+			up(i)
+		}
+	case 2: // the registrable part
+		for i := firstDot + 1; i > 0 && i < len(b); i++ {
+			up(i)
+		}
+	case 3: // the top-level label
+		for i := lastDot + 1; i > 0 && i < len(b); i++ {
+			up(i)
+		}
+	default: // back to lower case
+		return asciiLower(raw)
+	}
+	return string(b)
 }
 
 type runner struct {
@@ -418,22 +497,29 @@ func (x *runner) validate(c client, raw, powKind, cnameKind string, getFail, put
 	} else if len(x.res.asked) > 1 {
 		asked = "many"
 	}
-	bound := "-"
+	bound, owners := "-", "-"
 	if nok {
 		bound = x.kv.boundOf(norm)
+		owners = x.kv.ownersOfName(norm)
 	}
 	cn := "!"
 	if aerr == nil {
 		cn = hlib.HexS(ans)
 	}
 	x.r.Emit("validate "+c.tok()+" "+hlib.HexS(raw)+" "+normTok(norm, nok)+" "+b01(powOk)+":"+powKind+" "+cn+":"+cnameKind+" "+
-		hlib.HexS(c.target())+" "+b01(getFail)+b01(putFail), res+" "+asked+" "+strconv.Itoa(x.kv.reads)+" "+bound)
+		hlib.HexS(c.target())+" "+b01(getFail)+b01(putFail), res+" "+asked+" "+strconv.Itoa(x.kv.reads)+" "+bound+" "+owners)
 	key := ""
 	if nok && powOk {
 		key = c.tok() + raw + cnameKind + bound
 	}
 	x.r.Case(key)
 	x.r.Count("validate:" + res)
+	if raw != asciiLower(raw) {
+		x.r.Count("spelling:mixed-case")
+		if nok {
+			x.r.Count("spelling:mixed-case-normalised")
+		}
+	}
 	x.r.Count("pow:" + powKind)
 	if res == "ok" || res == "failed_precondition" {
 		x.r.Count("cname:" + cnameKind)
@@ -484,7 +570,7 @@ func parseClient(s string) client {
 
 func main() {
 	r := hlib.Start()
-	r.Rule = "histories of 10..24 operations (validate / instruction / release) by 4 clients (two sharing a token, two sharing an id) over ~38 raw hostname spellings (spaces, upper case, unicode/punycode, apex / acme-zone (sub)domains and look-alikes, bare domains, wildcards, IPs, malformed) with 11 kinds of proofs of work (real hashcash at the server's difficulty), 9 kinds of CNAME answers and KV failures; non-trivial = a validate that passed Normalize and the proof of work"
+	r.Rule = "histories of 10..24 operations (validate / instruction / release) by 4 clients (two sharing a token, two sharing an id) over ~47 raw hostname spellings plus random re-spellings of the same DNS name (ASCII case changes of the first label / the whole name / the registrable part / the TLD) (spaces, upper and mixed case also of the apex / acme zone, unicode/punycode, apex / acme-zone (sub)domains and look-alikes, bare domains, wildcards, IPs, malformed) with 11 kinds of proofs of work (real hashcash at the server's difficulty), 9 kinds of CNAME answers and KV failures; every validate line also reports all owners of the hostname as a DNS name (case-insensitive scan of the KV); non-trivial = a validate that passed Normalize and the proof of work"
 	rng := hlib.NewRng(r.Seed)
 	x := &runner{r: r, rng: rng, pw: newProofs(rng)}
 
@@ -542,13 +628,18 @@ func main() {
 		x.pw.warm(subjects)
 		x.reset()
 		// a case concentrates on a few hostnames so that bindings collide
+		// ... under several spellings of the same DNS name
 		focus := []string{hlib.Pick(rng, hostPool), hlib.Pick(rng, hostPool[:13]), hlib.Pick(rng, hostPool)}
+		focus = append(focus, respell(hlib.Pick(rng, focus), rng))
 		n := 10 + rng.Intn(15)
 		for i := 0; i < n; i++ {
 			c := hlib.Pick(rng, clients)
 			raw := hlib.Pick(rng, focus)
 			if rng.Intn(5) == 0 {
 				raw = hlib.Pick(rng, hostPool)
+			}
+			if rng.Intn(8) == 0 {
+				raw = respell(raw, rng)
 			}
 			switch k := rng.Intn(10); {
 			case k < 6:
